@@ -14,22 +14,48 @@ from mc.common import replay_via
 ID = 'C17'
 LEVEL = 'exploration'
 PRELOAD = ['frame.geometry.geometry', 'frame.netlist.netlist', 'frame.die.die', 'frame.allocation.allocation', 'ruamel.yaml', 'mc.common', 'tools.force.fruchterman_reingold', 'mpmath']
-RULE = ("radius pairs (r1,r2) from {1,0.1,0.3,1/3,2.5,7,1e-3,1e3,123.456} (all 81 ordered pairs) x base distance in "
+RULE = ("radius pairs (r1,r2) from {1,0.1,0.3,1/3,2.5,7,1e-3,1e3,123.456,1e-9} (all 100 ordered pairs) x base distance in "
         "{r1+r2, |r1-r2|, 0, (r1+r2)/2, r1, r2, sqrt(|r1^2-r2^2|)} x ulp offsets -J..J x 4 directions x 2 origins, plus relative neighbourhoods base*(1+k*10^-e), e=4..7, |k|<=4, all evaluated in one process per radius pair (so a stale cache or coarse rounding shows); a case is "
         "non-trivial when the exact configuration is a proper lens or within 1e-9*max(r) of a tangency; cases are distinct inputs")
 ASSUMPTIONS = ["the oracle is the closed-form lens area evaluated at 60 significant digits (mpmath) on the same float inputs",
                "tolerance is the property's own: 1e-5 * max(r1,r2)^2"]
-BOUNDS = {'quick': 'J=16, 9 radii', 'thorough': 'J=200, 14 radii'}
+BOUNDS = {'quick': 'J=16, 10 radii; total_intersection_area on all arrangements of 3-4 discs from a menu', 'thorough': 'J=200, 18 radii'}
 
-RADII = [1.0, 0.1, 0.3, 1 / 3, 2.5, 7.0, 1e-3, 1e3, 123.456]
-RADII_T = RADII + [0.7, 3.3, 1e-2, 50.5, 2.0]
+RADII = [1.0, 0.1, 0.3, 1 / 3, 2.5, 7.0, 1e-3, 1e3, 123.456, 1e-9]
+RADII_T = RADII + [0.7, 3.3, 1e-2, 50.5, 2.0, 1e-6, 1e6, 3e-12]
 DIRS = [(1.0, 0.0), (0.0, 1.0), (0.6, 0.8), (2 ** -0.5, 2 ** -0.5)]
 ORIGINS = [(0.0, 0.0), (100.1, -37.3)]
 
 
 def shards(tier):
     rad = RADII if tier == 'quick' else RADII_T
-    return [dict(i=i, j=j) for i in range(len(rad)) for j in range(len(rad))]
+    return [dict(i=i, j=j) for i in range(len(rad)) for j in range(len(rad))] + [dict(total=k) for k in range(8)]
+
+
+def check_total(case, res):
+    """the caller: total_intersection_area(die) = sum over ordered pairs of modules of the pairwise overlap"""
+    from frame.die.die import Die
+    from frame.netlist.netlist import Netlist
+    from mc.common import reset_frame_state
+    from tools.force.fruchterman_reingold import total_intersection_area
+    reset_frame_state()
+    discs = case['discs']            # (x, y, area)
+    mods = {f'M{i}': {'area': a, 'center': [x, y]} for i, (x, y, a) in enumerate(discs)}
+    n = Netlist({'Modules': mods, 'Nets': [[f'M{i}' for i in range(len(discs))]]})
+    d = Die('20x20', n)
+    try:
+        got = total_intersection_area(d)
+    except Exception as e:  # noqa
+        res.violation('total-raises', case, dict(n=len(discs)), 'a number', f'{type(e).__name__}: {e}')
+        return
+    want = 0
+    for i, (x1, y1, a1) in enumerate(discs):
+        for j, (x2, y2, a2) in enumerate(discs):
+            if i != j:
+                want += exact_area((x1, y1), math.sqrt(a1 / math.pi), (x2, y2), math.sqrt(a2 / math.pi))[0]
+    if abs(got - float(want)) > 1e-5 * max(a for _, _, a in discs):
+        res.violation('total', case, dict(n=len(discs)), float(want), got)
+    res.case('total', nontrivial=float(want) > 0)
 
 
 def exact_area(c1, r1, c2, r2):
@@ -55,6 +81,8 @@ def shift(x, j):
 
 
 def check_case(case, res):
+    if 'discs' in case:
+        return check_total(case, res)
     from frame.geometry.geometry import Point
     from tools.force.fruchterman_reingold import circle_circle_intersection_area as f
     c1, r1, c2, r2 = tuple(case['c1']), case['r1'], tuple(case['c2']), case['r2']
@@ -87,6 +115,20 @@ def check_case(case, res):
 
 
 def run_shard(shard, tier, res):
+    if 'total' in shard:
+        import itertools
+        areas = [0.3, 3.0, 12.0]
+        xs = [4.0, 5.4, 6.2, 7.0, 8.5]
+        k = 0
+        for nd in (3, 4):
+            for pos in itertools.permutations(xs, nd):
+                for ar in itertools.product(areas, repeat=nd):
+                    k += 1
+                    if k % 8 != shard['total']:
+                        continue
+                    discs = [[x, 10.0 + 0.3 * i, a] for i, (x, a) in enumerate(zip(pos, ar))]
+                    check_total(dict(discs=discs), res)
+        return
     J = 16 if tier == 'quick' else 200
     r1, r2 = RADII_T[shard['i']], RADII_T[shard['j']]
     bases = [r1 + r2, abs(r1 - r2), 0.0, (r1 + r2) / 2, r1, r2, math.sqrt(abs(r1 * r1 - r2 * r2))]
